@@ -480,9 +480,22 @@ func (s *State) atLoopHead(l *Loop) bool {
 		c.bindRangeIndex(env, s, fr, l)
 		t, err := env.evalBool(cl.E)
 		if err != nil {
+			if strings.Contains(err.Error(), "unknown identifier") {
+				// the code no longer has a local this clause talks about: the clause is dropped (not assumed, not
+				// proved); whatever depended on it now fails as a named obligation instead of the whole check
+				// becoming undecided
+				c.noteOnce(fmt.Sprintf("loop %d invariant clause dropped (%v): %s", l.Ordinal, err, cl.Src))
+				return "true"
+			}
 			panic(evalErr(fmt.Sprintf("%s:%d: loop %d invariant: %v", cl.File, cl.Line, l.Ordinal, err)))
 		}
 		return t
+	}
+	unbound := func(cl *Clause) bool {
+		env := c.funcEnv(s, fr, false)
+		c.bindRangeIndex(env, s, fr, l)
+		_, err := env.evalBool(cl.E)
+		return err != nil && strings.Contains(err.Error(), "unknown identifier")
 	}
 	evalDec := func(cl *Clause) Term {
 		env := c.funcEnv(s, fr, false)
@@ -499,6 +512,9 @@ func (s *State) atLoopHead(l *Loop) bool {
 		s.runGhost(fr, fmt.Sprintf("loop %d end", l.Ordinal))
 		if ls != nil {
 			for i, inv := range ls.Invariants {
+				if unbound(inv) {
+					continue
+				}
 				env := c.funcEnv(s, fr, false)
 				c.bindRangeIndex(env, s, fr, l)
 				s.obligeExpr(fmt.Sprintf("inv-keep#L%d.%d", l.Ordinal, i+1), inv.Src, pos, env, inv.E, fmt.Sprintf("%s:%d: loop %d invariant", inv.File, inv.Line, l.Ordinal))
@@ -534,6 +550,9 @@ func (s *State) atLoopHead(l *Loop) bool {
 	}
 	if ls != nil {
 		for i, inv := range ls.Invariants {
+			if unbound(inv) {
+				continue
+			}
 			env := c.funcEnv(s, fr, false)
 			c.bindRangeIndex(env, s, fr, l)
 			s.obligeExpr(fmt.Sprintf("inv-init#L%d.%d", l.Ordinal, i+1), inv.Src, pos, env, inv.E, fmt.Sprintf("%s:%d: loop %d invariant", inv.File, inv.Line, l.Ordinal))
@@ -988,4 +1007,11 @@ func (s *State) specWriteRefs(sw specWrite, l *Loop) (refs map[string][]Term, ok
 		refs[t.Comp] = append(refs[t.Comp], t.Ref)
 	}
 	return refs, true
+}
+
+func (c *Ctx) noteOnce(n string) {
+	if !c.warned[n] {
+		c.warned[n] = true
+		c.Notes = append(c.Notes, n)
+	}
 }
